@@ -121,6 +121,20 @@ Section TotalForce.
       | CGyration ids | CRmsd ids _ _ | CEigenvector ids _ _ _ => ids
       end.
 
+    (* atoms whose total force a component reads (read_total_forces in calc_force_invgrads) *)
+    Definition cvc_measured (c : cvc) : list nat :=
+      match c with
+      | CDistance g1 g2 os => if os then gids g1 else gids g1 ++ gids g2
+      | CDistanceZ gm gr gr2 _ os | CDistanceXY gm gr gr2 _ os =>
+          match gr2 with
+          | None => if os then gids gm else gids gm ++ gids gr
+          | Some _ => gids gm
+          end
+      | CAngle g1 g2 g3 os => if os then gids g1 else gids g1 ++ gids g3
+      | CDihedral g1 g2 g3 g4 os => if os then gids g1 else gids g1 ++ gids g4
+      | CGyration ids | CRmsd ids _ _ | CEigenvector ids _ _ _ => ids
+      end.
+
     (* ---- distance ---- *)
     Definition dist_v (g1 g2 : group) : vec := vsub (gcom g2) (gcom g1).
 
